@@ -7,7 +7,7 @@ from sqlparse import tokens as T
 
 RULE = ('grammar scripts (queries, DML, DDL, CTE; comments in any inter-token position) x combinations of the layout options (all boolean combinations in thorough, sampled in quick; '
         'integer options from pools); sweeps: every multi-line token kind x every line-break/blank payload, every ordered pair of lexical classes in four contexts, '
-        'every comment kind in every gap of six statement templates, every statement separator — each x the layout option sets; '
+        'every comment kind in every gap of six statement templates, every statement separator, every dictionary word directly / with whitespace in front of a parenthesis x argument kinds (calls whose name spells a keyword) — each x the layout option sets; '
         'non-trivial = distinct (script, option set) with at least one layout option on')
 ASSUMPTIONS = ['lexical bridge: the output is re-lexed by the real lexer', 'filters model tied by S-FMT (full format pipeline) on the same cases']
 PARTIAL = ['all four layout filters are proved to preserve the significant leaves at tree level; the lexical bridge (the serialized output re-lexes to the same tokens / same statement count) is oracle + S-FMT']
@@ -350,6 +350,28 @@ def go_then_blanks_on_the_same_line(text):
     return False
 
 
+def go_glue_explains(text, out, same_line_only):
+    """KF-C06-1 by its mechanism (second red-team pass): delete the whitespace between a GO that ends an inner statement and the token after it
+    (same_line_only: only if that whitespace holds no line break — the no-option face) and re-lex: the failing output must read as exactly
+    these tokens.  Anything else that happens to a script containing GO is not this finding"""
+    toks = oracles.lex(text)
+    parts, i, glued = [], 0, 0
+    while i < len(toks):
+        tt, v = toks[i]
+        parts.append(v)
+        if tt is T.Keyword and re.fullmatch(r'GO(\s+\d+)?', v.upper()):
+            j = i + 1
+            while j < len(toks) and toks[j][0] in T.Whitespace:
+                j += 1
+            ws = ''.join(x for _, x in toks[i + 1:j])
+            if ws and j < len(toks) and toks[j][1] != ';' and not (same_line_only and re.search(r'[\r\n]', ws)):
+                glued += 1
+                i = j
+                continue
+        i += 1
+    return glued > 0 and sig_with_comments(''.join(parts)) == sig_with_comments(out)
+
+
 def later_statement_starts_with_comment(text):
     """a statement other than the first begins with a comment: once the previous statement's trailing line break is gone the comment sits on the
     line of the ';' and the splitter gives it to the previous statement"""
@@ -428,9 +450,9 @@ def classify(f, kf):
     # every later statement — is not
     # (AlignedIndentFilter pops a statement's leading whitespace again, so reindent + reindent_aligned glues as well)
     glue = eff.get('strip_whitespace') and (not eff.get('reindent') or eff.get('reindent_aligned'))
-    if 'KF-C06-1' in ids and glue and 'changed the sequence' in f['what'] and go_ends_inner_statement(text):
+    if 'KF-C06-1' in ids and glue and 'changed the sequence' in f['what'] and go_ends_inner_statement(text) and go_glue_explains(text, out, False):
         return 'KF-C06-1'
-    if 'KF-C06-1' in ids and 'changed the sequence' in f['what'] and go_then_blanks_on_the_same_line(text):
+    if 'KF-C06-1' in ids and 'changed the sequence' in f['what'] and go_then_blanks_on_the_same_line(text) and go_glue_explains(text, out, True):
         return 'KF-C06-1'
     if 'KF-C06-1' in ids and glue and 'different number of statements' in f['what'] and later_statement_starts_with_comment(text):
         return 'KF-C06-1'
